@@ -494,7 +494,13 @@ func generateStatFor(rule *Rule) (*standaloneStatistic, error) {
 		// happens with every request that waits in a queue across the boundary (its pass is recorded
 		// when it wakes up): a queueing warm-up rule with a statistic of its own then saw "no traffic"
 		// in every window and never left its cold rate.
-		realLeapArray := sbase.NewBucketLeapArray(2*sampleCount, 2*intervalInMs)
+		// (An interval so long that twice its length does not fit the uint32 of milliseconds keeps the
+		// single window: 2^31 ms are 24 days.)
+		arraySampleCount, arrayIntervalInMs := 2*sampleCount, 2*intervalInMs
+		if intervalInMs > math.MaxUint32/2 {
+			arraySampleCount, arrayIntervalInMs = sampleCount, intervalInMs
+		}
+		realLeapArray := sbase.NewBucketLeapArray(arraySampleCount, arrayIntervalInMs)
 		metricStat, e := sbase.NewSlidingWindowMetric(sampleCount, intervalInMs, realLeapArray)
 		if e != nil {
 			return nil, errors.Errorf("fail to generate statistic for warm up rule: %+v, err: %+v", rule, e)
